@@ -175,13 +175,24 @@ def lookupScope (b : Builder) (names : List String) : Option Nat :=
       rest.foldl (fun acc n => acc.bind fun s =>
         (scopesIn (itemsOf b (b.scopes.getD s default).child)).find? (fun c => (b.scopes.getD c default).name = n)) (some s0)
 
-/-- `lookup_var` (index = None) -/
+/-- a variable's key is `<name>` or `<name>@<index>` (a variable declared with a bit index); its base is the name -/
+def baseName (key : String) : String := (key.splitOn "@").headD ""
+
+/-- `lookup_var` (index = None: any index): the first variable in the scope with that NAME -/
 def lookupVar (b : Builder) (path : List String) (name : String) : Option Nat :=
   match path with
-  | [] => (varsIn (itemsOf b b.firstItem)).find? (fun v => (b.vars.getD v default).name = name)
+  | [] => (varsIn (itemsOf b b.firstItem)).find? (fun v => baseName (b.vars.getD v default).name = baseName name)
   | _ => match lookupScope b path with
     | none => none
-    | some s => (varsIn (itemsOf b (b.scopes.getD s default).child)).find? (fun v => (b.vars.getD v default).name = name)
+    | some s => (varsIn (itemsOf b (b.scopes.getD s default).child)).find? (fun v => baseName (b.vars.getD v default).name = baseName name)
+
+/-- `lookup_var_with_index(.., Some(index))`: the first variable with that name AND index -/
+def lookupVarIdx (b : Builder) (path : List String) (key : String) : Option Nat :=
+  match path with
+  | [] => (varsIn (itemsOf b b.firstItem)).find? (fun v => (b.vars.getD v default).name = key)
+  | _ => match lookupScope b path with
+    | none => none
+    | some s => (varsIn (itemsOf b (b.scopes.getD s default).child)).find? (fun v => (b.vars.getD v default).name = key)
 
 /-! ### the abstract specification: nodes in declaration order with a parent pointer -/
 
